@@ -4,8 +4,6 @@ package keyid
 //vsym:entry H19_keyid_decoding_is_unaffected_by_concurrent_callers
 //vsym:model encoding/json.Marshal t05Marshal
 //vsym:model encoding/json.Unmarshal t05Unmarshal
-//vsym:model encoding/json.NewEncoder t05NewEncoder
-//vsym:model (*encoding/json.Encoder).Encode t05Encode
 //vsym:include C05/s05.go
 //vsym:include C05/h05_text.go
 //vsym:include C05/h05_reentrant.go
